@@ -121,6 +121,12 @@ pub fn run(a: &Args) {
             seeds.push(format!("<{n}><p:{n}/><{n}:q {n}:{n}=\"1\"/></{n}>", n = name).into_bytes());
         }
     }
+    // shapes the state machine might not expect: several roots, text first / last, an element called like the synthetic
+    // wrapper, stray end tags, a second document with another root (used as second document below)
+    for d in ["<a/><b/>", "<a/><a/>", "text<a/>", "<a/>text", "<root><root/></root>", "<root/>", "</a>", "<a></a></a>", "<a></b>",
+              "<a><b></a></b>", "<b><a/></b>", "<r><a/></r><r><b/></r>", "<?xml version='1.0'?><!DOCTYPE a [<!ENTITY e 'v'>]><a>&e;</a>"] {
+        seeds.push(d.as_bytes().to_vec());
+    }
     for n in [":", "a:", ":a", "xmlns:", "xmlns", "x:", "::", "a::b", "xml:", "_", "-", "."] {
         seeds.push(format!("<r {n}=\"1\"><{n}/><{n} {n}=\"2\">t</{n}></r>", n = n).into_bytes());
     }
@@ -161,6 +167,27 @@ pub fn run(a: &Args) {
         for cut in 0..=s.len() {
             case("truncation at every offset", vec![(s[..cut].to_vec(), ReaderCfg::default_cfg())], Feed::Whole, &mut r, &mut failures, &mut executed);
         }
+    }
+    // scale: one element repeated more often than a narrowed counter could hold, many distinct children, many attributes
+    if a.num("scale", 1) == 1 {
+        for reps in [300usize, 70_000] {
+            let mut d = b"<r>".to_vec();
+            for i in 0..reps {
+                d.extend_from_slice(if i % 2 == 0 { b"<a/>" } else { b"<a></a>" });
+            }
+            d.extend_from_slice(b"</r>");
+            case("an element repeated 300 / 70 000 times", vec![(d.clone(), ReaderCfg::default_cfg()), (d, ReaderCfg::default_cfg())], Feed::Whole, &mut r, &mut failures, &mut executed);
+        }
+        let mut d = b"<r".to_vec();
+        for i in 0..400 {
+            d.extend_from_slice(format!(" a{}=\"1\"", i).as_bytes());
+        }
+        d.push(b'>');
+        for i in 0..400 {
+            d.extend_from_slice(format!("<k{}/>", i).as_bytes());
+        }
+        d.extend_from_slice(b"</r>");
+        case("400 distinct attributes and children", vec![(d, ReaderCfg::default_cfg())], Feed::Chunk(7), &mut r, &mut failures, &mut executed);
     }
     // deep nesting
     for depth in [1usize, 50, 100, 150, 200] {
